@@ -937,6 +937,17 @@ class Sim:
                 both.overlap = bool(getattr(cl, "overlap", False)) or int(st_overlap) > 0
                 tw = twin_outcome(cur, both, None, None)
                 if tw["status"] == "done":
+                    # the same combined data laid out the other way: if a fresh object
+                    # cannot be fitted on that, the failure sits at rounding level (a
+                    # numerically singular slice) and the case is not judged
+                    try:
+                        alt = twin_outcome(cur, [core.alt_combination(both)], None, None)
+                    except Exception:  # noqa: BLE001
+                        alt = {"status": "done"}
+                    if alt["status"] != "done":
+                        self.stats["illconditioned_skip"] = self.stats.get("illconditioned_skip", 0) + 1
+                        tw = {"status": "illcond"}
+                if tw["status"] == "done":
                     self.stats["comparisons"] += 1
                     ev["cmp"] = "NE"
                     self.violate("update_fails_where_fit_succeeds", cl, op, i_step, fkind, {"history": describe(res), "fresh": "fit on the combined data succeeds", "spec": cur})
